@@ -233,6 +233,10 @@ def run_scenario(script, *, close_at_iteration=None, close_at_time=None, horizon
     loop = VirtualLoop()
     asyncio.set_event_loop(loop)
     restore, shim_mode = install_clock_shim(mc, loop) if use_shim else ((lambda: None), "off")
+    from vlib import fakeclock
+
+    fclock = fakeclock.FakeClock(start=1_609_459_200.0, source=loop.time)  # time.time()/monotonic() follow the virtual loop as well
+    fclock.__enter__()
     world = World(loop, script, mc)
     out = {"world": world, "closed_at": None, "closed_iteration": None, "loop_done_at": None, "loop_exc": None, "quiescent": False, "shim": shim_mode}
     try:
@@ -286,6 +290,7 @@ def run_scenario(script, *, close_at_iteration=None, close_at_time=None, horizon
         out["main_done"] = main.done()
     finally:
         restore()
+        fclock.__exit__(None, None, None)
         # cancel whatever is left so nothing outlives the case
         try:
             pending = [t for t in asyncio.all_tasks(loop) if not t.done()]
